@@ -148,6 +148,13 @@ def _attribute(run, label, spec, route, r, probes_for, collect):
                                 rm.detail.get(gkind)))
         leaves = [p for p in needed
                   if not any(q != p and q[:len(p)] == p for q in needed)]
+        # a dtype that other remaining checks depend on is context, not cause
+        leaves = [p for p in leaves
+                  if not (len(p) == 3 and p[2] == "dtype" and
+                          len(cur[p[0]][p[1]]["checks"]) >
+                          sum(1 for q in leaves if q[:3] == (p[0], p[1],
+                                                             "checks")
+                              and len(q) == 4))]
         nxt = O.strip(cur, leaves)
         if nxt == cur:
             return
